@@ -37,6 +37,11 @@ def _raiser(request):
     raise SimRaise(request.k)
 
 
+def _keyerror_handler(request):
+    """A handler whose own lookup fails: the KeyError is the handler's answer, not 'no handler'."""
+    raise KeyError("handler-internal lookup")
+
+
 class C14(Property):
     ID = "C14"
     LEVEL = "exploration"
@@ -82,7 +87,8 @@ class C14(Property):
     def _tagmap(self, rng, state, allow_raiser=True):
         m = {}
         for t in rng.sample(range(NTYPES), rng.randint(0, 2)):
-            m[str(t)] = "RAISE" if allow_raiser and rng.random() < 0.1 else f"h{state['nrt']}_{t}"
+            x = rng.random()
+            m[str(t)] = "RAISE" if allow_raiser and x < 0.1 else "KEYERROR" if x < 0.17 else f"h{state['nrt']}_{t}"
         return m
 
     def _gen_body(self, rng, state, depth, active):
@@ -193,6 +199,8 @@ class C14(Property):
                 return types[t](k).run()
             except TypeError:
                 return "TypeError"
+            except KeyError:
+                return "KEYERROR"
             except SimRaise:
                 return "RAISE"
 
@@ -220,7 +228,7 @@ class C14(Property):
                 res.violate("initial-runtime-not-restored", where=where)
 
         def handlers_of(tagmap):
-            return {types[int(t)]: (_raiser if tag == "RAISE" else _handler(tag)) for t, tag in tagmap.items()}
+            return {types[int(t)]: (_raiser if tag == "RAISE" else _keyerror_handler if tag == "KEYERROR" else _handler(tag)) for t, tag in tagmap.items()}
 
         def run_ops(ops, path):
             for i, op in enumerate(ops):
